@@ -30,7 +30,7 @@ def policies(r, driver, root_ph="@ROOT@"):
     """One random I/O policy: (name, rules)."""
     U = root_ph
     kind = r.choice(["cfr-short", "cfr-short", "cfr-short-kth", "cfr-refuse", "cfr-refuse-kth", "uspace-short", "uspace-short",
-                     "ficlone", "fiemap", "eintr", "mix", "mix", "short-then-refuse", "cfr-transient"])
+                     "ficlone", "fiemap", "eintr", "mix", "mix", "short-then-refuse", "cfr-transient", "seek-unsupported", "seek-unsupported"])
     lp = r.choice(LENPOL)
     rules = []
     if kind == "cfr-short":
@@ -56,6 +56,11 @@ def policies(r, driver, root_ph="@ROOT@"):
                       "errno": r.choice([EOPNOTSUPP, EINVAL, EXDEV])})
     elif kind == "fiemap":
         rules.append({"id": "s", "sys": "ioctl", "iocmd": core.FIEMAP, "under": U, "action": "fault", "errno": EOPNOTSUPP})
+    elif kind == "seek-unsupported":
+        # the filesystem cannot tell data from holes (SEEK_DATA / SEEK_HOLE answer EINVAL), with or without an extent map
+        rules.append({"id": "s", "sys": "lseek", "under": U, "action": "fault", "errno": 22})
+        if r.random() < 0.5:
+            rules.append({"id": "s3", "sys": "ioctl", "iocmd": core.FIEMAP, "under": U, "action": "fault", "errno": EOPNOTSUPP})
     elif kind == "cfr-transient":
         # one in-kernel copy is interrupted or asked to try again: not a count, not a refusal
         rules.append({"id": "s", "sys": "copy_file_range", "under": U, "action": "fault", "errno": r.choice([EINTR, 11]), "nth": r.randint(1, 5)})
